@@ -50,7 +50,8 @@ def gen(rng):
         ops.append(op)
     if not have_restore and rng.random() < 0.5 and len(ops) < 10:
         ops.insert(rng.randrange(len(ops) + 1), {"op": "restore"})
-    c["ops"] = ops
+    # refused requests (caught by the application) and in-place edits of the arrays get() handed out, anywhere
+    c["ops"] = W.sprinkle(rng, ops, 0.12, 0.1)
     return c
 
 
@@ -99,6 +100,9 @@ def oracle(c, io):
     steps = io["steps"]
     if "err" in steps[0]:
         return f"valid constructor raised {steps[0]['err']}"
+    bad = W.accepted_invalid(io)
+    if bad:
+        return bad
     prev = None
     for i, st in enumerate(steps):
         k = c["ops"][i - 1]["op"] if i > 0 else "init"
